@@ -3853,9 +3853,7 @@ namespace awkward {
   NumpyArray::getitem_next(const SliceJagged64& jagged,
                            const Slice& tail, const Index64& advanced) const {
     if (shape_.size() != 1) {
-      throw std::runtime_error(
-        std::string("undefined operation: NumpyArray::getitem_next(jagged) with "
-                    "ndim != 1") + FILENAME(__LINE__));
+      return toRegularArray().get()->getitem_next(jagged, tail, advanced);
     }
 
     if (!advanced.is_empty_advanced()) {
@@ -3881,10 +3879,10 @@ namespace awkward {
         + FILENAME(__LINE__));
     }
     else {
-      throw std::runtime_error(
-        std::string("undefined operation: NumpyArray::getitem_next_jagged("
-                    "array) for ndim == ") + std::to_string(ndim())
-        + FILENAME(__LINE__));
+      return toRegularArray().get()->getitem_next_jagged(slicestarts,
+                                                         slicestops,
+                                                         slicecontent,
+                                                         tail);
     }
   }
 
@@ -3899,10 +3897,10 @@ namespace awkward {
         + FILENAME(__LINE__));
     }
     else {
-      throw std::runtime_error(
-        std::string("undefined operation: NumpyArray::getitem_next_jagged("
-                    "missing) for ndim == ") + std::to_string(ndim())
-        + FILENAME(__LINE__));
+      return toRegularArray().get()->getitem_next_jagged(slicestarts,
+                                                         slicestops,
+                                                         slicecontent,
+                                                         tail);
     }
   }
 
@@ -3917,10 +3915,10 @@ namespace awkward {
         + FILENAME(__LINE__));
     }
     else {
-      throw std::runtime_error(
-        std::string("undefined operation: NumpyArray::getitem_next_jagged("
-                    "jagged) for ndim == ") + std::to_string(ndim())
-        + FILENAME(__LINE__));
+      return toRegularArray().get()->getitem_next_jagged(slicestarts,
+                                                         slicestops,
+                                                         slicecontent,
+                                                         tail);
     }
   }
 
@@ -3935,10 +3933,10 @@ namespace awkward {
         + FILENAME(__LINE__));
     }
     else {
-      throw std::runtime_error(
-        std::string("undefined operation: NumpyArray::getitem_next_jagged("
-                    "varnewaxis) for ndim == ") + std::to_string(ndim())
-        + FILENAME(__LINE__));
+      return toRegularArray().get()->getitem_next_jagged(slicestarts,
+                                                         slicestops,
+                                                         slicecontent,
+                                                         tail);
     }
   }
 
